@@ -1,6 +1,6 @@
 """Translated fragments for C12: the closed-form arithmetic expressions of geometry.cross, det_2x2, det_3x3,
-rotations.rotate_2d, rotations.rotate_around_axis and the 1e-12 thresholds of intersect_2lines2D /
-distance_to_segment2D are re-extracted from $MOUETTE_REPO with `ast` on every run and emitted VERBATIM (same
+rotations.rotate_2d, rotations.rotate_around_axis, the factor 1e-12 of the RELATIVE parallelism test of intersect_2lines2D
+(`abs(det_2x2(d1,d2)) <= 1e-12*norm(d1)*norm(d2)`) and the 1e-12 threshold of distance_to_segment2D are re-extracted from $MOUETTE_REPO with `ast` on every run and emitted VERBATIM (same
 operators, same operand order) as Lean terms over ℚ in lean/Mouette/Generated/C12.lean.  Bridge theorems in
 Props/C12.lean (`gen_cross_eq`, …) prove that they denote the hand-written model the algebraic theorems are about.
 An AST shape that is not recognised makes the site fail (broken obligation), never silently skipped."""
@@ -76,6 +76,33 @@ def _threshold(fn, what):
     raise T.TranslateError(f"{what}: no `< <float>` threshold found")
 
 
+def _relative_threshold(fn, what):
+    """`abs(det_2x2(a, b)) <= c * norm(a) * norm(b)` (any order of the three factors, `<` or `<=`): returns (c, closed) and checks
+    that the two `norm` factors are the two arguments of the determinant"""
+    for n in ast.walk(fn):
+        if not (isinstance(n, ast.Compare) and len(n.ops) == 1): continue
+        op, left, right = n.ops[0], n.left, n.comparators[0]
+        if isinstance(op, (ast.Gt, ast.GtE)): op, left, right = (ast.Lt() if isinstance(op, ast.Gt) else ast.LtE()), right, left
+        if not isinstance(op, (ast.Lt, ast.LtE)): continue
+        if not (isinstance(left, ast.Call) and getattr(left.func, "id", None) == "abs" and len(left.args) == 1
+                and isinstance(left.args[0], ast.Call) and getattr(left.args[0].func, "id", None) == "det_2x2" and len(left.args[0].args) == 2):
+            continue
+        dargs = sorted(ast.unparse(a) for a in left.args[0].args)
+        factors, stack = [], [right]
+        while stack:
+            x = stack.pop()
+            if isinstance(x, ast.BinOp) and isinstance(x.op, ast.Mult): stack += [x.left, x.right]
+            else: factors.append(x)
+        consts = [x for x in factors if isinstance(x, ast.Constant) and isinstance(x.value, float)]
+        norms = [x for x in factors if isinstance(x, ast.Call) and ast.unparse(x.func) in ("norm", "np.linalg.norm", "geom.norm") and len(x.args) == 1 and not x.keywords]
+        if len(consts) != 1 or len(norms) != 2 or len(factors) != 3:
+            raise T.TranslateError(f"{what}: right-hand side `{ast.unparse(right)[:60]}` is not `<float> * norm(.) * norm(.)`")
+        if sorted(ast.unparse(x.args[0]) for x in norms) != dargs:
+            raise T.TranslateError(f"{what}: the norms are not those of the two directions of the determinant")
+        return Fraction(str(consts[0].value)), isinstance(op, ast.LtE)
+    raise T.TranslateError(f"{what}: no `abs(det_2x2(a, b)) <= <float> * norm(a) * norm(b)` test found")
+
+
 def translate():
     chunks = {}
     sites = []
@@ -130,11 +157,16 @@ def translate():
         return "3 Rodrigues rows"
 
     def s_thr():
-        a = _threshold(T.find_def(gtree, "intersect_2lines2D"), "intersect_2lines2D")
+        a, closed = _relative_threshold(T.find_def(gtree, "intersect_2lines2D"), "intersect_2lines2D")
         b = _threshold(T.find_def(gtree, "distance_to_segment2D"), "distance_to_segment2D")
-        chunks["thr"] = (f"def parallelThreshold : Rat := ({a.numerator} : Rat) / {a.denominator}\n\n"
+        chunks["thr"] = (f"/-- `intersect_2lines2D`: the factor `c` of the RELATIVE parallelism test `|det(d1,d2)| ≤ c·|d1|·|d2|` -/\n"
+                         f"def parallelThreshold : Rat := ({a.numerator} : Rat) / {a.denominator}\n\n"
+                         f"/-- the test is relative to the lengths of both directions (the sine of their angle), not an absolute bound on the determinant -/\n"
+                         f"def parallelRelative : Bool := true\n\n"
+                         f"/-- `<=` (a zero direction is parallel to everything) rather than `<` -/\n"
+                         f"def parallelClosed : Bool := {'true' if closed else 'false'}\n\n"
                          f"def segmentThreshold : Rat := ({b.numerator} : Rat) / {b.denominator}\n\n")
-        return f"{a}, {b}"
+        return f"relative {a} ({'<=' if closed else '<'}), {b}"
 
     for name, fn in (("geometry.py:cross", s_cross), ("geometry.py:det_2x2", s_det2), ("geometry.py:det_3x3", s_det3),
                      ("rotations.py:rotate_2d", s_rot2), ("rotations.py:rotate_around_axis", s_rotax),
